@@ -74,6 +74,8 @@ type PathState struct {
 	unknown   bool
 	touched   map[string]bool // functions executed
 	pending   []*pendingGo
+	parked    []*coro
+	nextTid   int
 	trace     []string
 	concPos   int
 	env       map[string]Value // scratch for models (per-path)
@@ -287,6 +289,8 @@ func (vm *VM) runPath(entry *ssa.Function, prefix []int32) {
 		}()
 		vm.callFunction(entry, nil, nil)
 	}()
+	vm.abortCoros()
+	vm.co = nil
 	// a concrete witness of this path for the evidence samples (first few paths only)
 	sample := ""
 	if vm.cfg.Concrete == nil && reason != "engine-error" && reason != "engine-crash" && (P.Oblig > 0 || len(P.reach) > 0) {
